@@ -1,5 +1,5 @@
 """Python side of harness/ksi_exec: drives the interactive op interpreter, acts as the reference server."""
-import os, subprocess, threading, tempfile
+import threading, time, os, subprocess, tempfile
 from . import core
 
 
@@ -7,6 +7,18 @@ class ExecCrashed(Exception):
     def __init__(self, msg, stderr='', rc=None, last=''):
         Exception.__init__(self, msg)
         self.stderr, self.rc, self.last = stderr, rc, last
+
+
+class ExecSpin(ExecCrashed):
+    """the command never returned although the transport answered every one of its calls"""
+
+
+EVENT_LIMIT = 400000
+CMD_WALL_LIMIT = 1500
+
+
+class ExecTimeout(ExecCrashed):
+    """wall-clock watchdog fired: inconclusive"""
 
 
 class Result(dict):
@@ -38,6 +50,22 @@ class Exec:
         self.last = ''
         self.nops = 0
         self.events = []
+        # wall-clock watchdog (generous; its firing makes the run inconclusive, never a violation): a command that neither returns nor calls the transport
+        self._busy_since = None
+        self._timed_out = False
+        threading.Thread(target=self._watchdog, daemon=True).start()
+
+    def _watchdog(self):
+        while self.p.poll() is None:
+            time.sleep(15)
+            b = self._busy_since
+            if b is not None and time.time() - b > CMD_WALL_LIMIT:
+                self._timed_out = True
+                try:
+                    self.p.kill()
+                except Exception:
+                    pass
+                return
 
     def _fail(self, what):
         try:
@@ -51,17 +79,27 @@ class Exec:
             rc = self.p.wait()
         self.errf.seek(0)
         err = self.errf.read().decode('utf-8', 'replace')
+        if self._timed_out:
+            raise ExecTimeout('no answer within %d s of wall clock to: %s' % (CMD_WALL_LIMIT, self.last[:300]), err, rc, self.last)
         raise ExecCrashed(what, err, rc, self.last)
 
     def cmd(self, line):
         """Send one command, handle events, return Result."""
         self.last = line
         self.nops += 1
+        self._busy_since = time.time()
+        try:
+            return self._cmd(line)
+        finally:
+            self._busy_since = None
+
+    def _cmd(self, line):
         try:
             self.p.stdin.write(line.encode() + b'\n')
         except (BrokenPipeError, OSError):
             self._fail('write failed')
         self.events = []
+        nev = 0
         while True:
             ln = self.rd.readline()
             if not ln:
@@ -69,7 +107,16 @@ class Exec:
             ln = ln.decode('utf-8', 'replace').rstrip('\n')
             if ln.startswith('! '):
                 toks = ln[2:].split(' ')
-                self.events.append(toks)
+                nev += 1
+                if nev > EVENT_LIMIT:
+                    # the library keeps calling into the transport without ever returning from the call: a spin, not a slow answer
+                    # (logical bound, not a wall-clock one: no command of any check comes near this number of transport calls)
+                    self.kill()
+                    self.errf.seek(0)
+                    err = self.errf.read().decode('utf-8', 'replace')
+                    raise ExecSpin('more than %d transport calls without returning from: %s' % (EVENT_LIMIT, line[:200]), err, None, self.last)
+                if len(self.events) < 5000:
+                    self.events.append(toks)
                 if self.ev is not None:
                     ans = self.ev(toks)
                     if ans is not None:
